@@ -230,6 +230,13 @@ func (m *Machine) nondetIntrinsic(name string, args []Val) (Val, bool) {
 		// from here on, running more than n further instructions is a "hang"
 		m.hangLimit = m.steps + m.cInt(args[0], name)
 		return nil, true
+	case "VerifQuiet":
+		// harness-level filesystem inspection: not part of the compared step trace
+		old := m.quietFS
+		m.quietFS = true
+		m.callValue(args[0], nil)
+		m.quietFS = old
+		return nil, true
 	case "VerifShared":
 		f := args[0]
 		m.quietFS = true // steps of the two runs are not part of the compared trace
